@@ -160,6 +160,8 @@ def _do(F, d, E, sink):
         return t
     if op == "jread":
         fo = io.StringIO(_get(E, d["text"]))
+        if d.get("reader"):
+            return list(F.json_reader(fo, _get(E, d["schema"]), _get(E, d["reader"])))
         return list(F.json_reader(fo, _get(E, d["schema"])))
     if op == "generate":
         random.seed(d["seed"])
